@@ -12,6 +12,7 @@ RULE = ("histories: every sequence of <=D public mutations/queries on one Measur
         "single terms with each coefficient (also as bare PauliTerm), all-integer coefficients, small (1e-5) and large (1e6) coefficients; Bessel on/off. non-trivial = at least two distinct bitstrings among the shots and an operator with a "
         "non-constant term; distinct = (shots list, operator block)")
 RULE += ' Also: marked qubits given as tuple / set / frozenset / dict keys / PauliTerm.qubits / one-shot iterators and generators; bitstrings of 33..130 bits.'
+RULE += ' Round 5: marked qubits as one-shot iterators / generators / map objects.'
 ASSUMPTIONS = ["exact rational arithmetic (fractions.Fraction) as reference", "floating point results compared at 1e-12 relative to the natural scale of each entry (|c_i|, |c_i c_j|, |c_i c_j|/denominator)"]
 BOUNDS = {"quick": {"w<=2": "N<=4, <=3 terms", "w=3": "N<=3, <=2 terms"}, "thorough": {"w<=2": "N<=5, <=3 terms", "w=3": "N<=5, <=3 terms"}}
 TOL = 1e-12
